@@ -119,3 +119,19 @@ M("C13", "break-on-short-header", NODES, '                block_addr_bytes = str
 M("C13", "missing-magic-accepted", NODES, "                raise RuntimeError(f'{self.ips_file_path} is missing \"PATCH\" header')", "                logger.warning(f'{self.ips_file_path} is missing \"PATCH\" header')", "C13.R2")
 M("C13", "ips-blocks-appended-to-block", PROG, "                for block_addr, block in node.blocks:\n                    writer.write_block(block, block_addr)", "                for block_addr, block in node.blocks:\n                    writer.write_block(block, block_addr)\n                    current_block_addr = block_addr", "C13.R3")
 M("C13", "delta-dropped-in-codegen", CG, "return [IncludeIpsNode(node.file_path, resolver, node.expression)]", "return [IncludeIpsNode(node.file_path, resolver)]", "C13.R4")
+
+# ------------------------------------------------------------------ C05
+M("C05", "unsigned-format", CPU, 'struct.pack("b", delta)', 'struct.pack("B", delta & 0xFF)', "C05.R1")
+M("C05", "delta-masked", CPU, "            delta -= 2\n", "            delta -= 2\n            delta = ((delta + 128) % 256) - 128\n", "C05.R1")
+M("C05", "bias-3", CPU, "            delta -= 2\n", "            delta -= 3\n", "C05.R2")
+M("C05", "bias-dropped", CPU, "            delta = physical_destination - pc\n            delta -= 2\n", "            delta = physical_destination - pc\n", "C05.R2")
+M("C05", "swallow-range-error", CPU, "        except struct.error:\n            print(value_node)\n            raise", "        except struct.error:\n            print(value_node)\n            return super().emit(value_node, resolver, size) + b\"\\x00\"", "C05.R1")
+M("C05", "revert-run-address-check", CPU, "if physical_destination is None or resolver.reloc_address.physical is None:", "if physical_destination is None:", "C05.R3")
+M("C05", "target-check-dropped", CPU, "if physical_destination is None or resolver.reloc_address.physical is None:", "if resolver.reloc_address.physical is None:", "C05.R3",
+  edits=[(CPU, "if physical_destination is None or resolver.reloc_address.physical is None:", "if resolver.reloc_address.physical is None:"),
+         (CPU, "            delta = physical_destination - pc\n", "            delta = (physical_destination or 0) - pc\n")])
+M("C05", "pc-advanced-before-emit", PROG, "            node_bytes = node.emit(self.resolver.reloc_address)\n\n            if node_bytes:\n                current_block += node_bytes\n                self.resolver.pc += len(node_bytes)\n",
+  "            self.resolver.pc += 0\n            node_bytes = node.emit(self.resolver.reloc_address)\n\n            if node_bytes:\n                current_block += node_bytes\n                self.resolver.pc += len(node_bytes)\n", "C05.R2")
+M("C05", "opcode-node-absorbs-struct-error", NODES, "        except SymbolNotDefined as e:\n            raise NodeError(\n                f\"{e} ({self.value_node}) is not defined in the current scope.\",\n                self.file_info,\n            ) from e\n\n    def pc_after",
+  "        except SymbolNotDefined as e:\n            raise NodeError(\n                f\"{e} ({self.value_node}) is not defined in the current scope.\",\n                self.file_info,\n            ) from e\n        except struct.error:\n            return b\"\"\n\n    def pc_after", "C05.R1")
+M("C05", "bias-as-sum-neutral", CPU, "            delta = physical_destination - pc\n            delta -= 2\n", "            delta = physical_destination - (pc + 2)\n", neutral=True)
